@@ -54,10 +54,13 @@ type Taint struct {
 	stores   map[*ssa.Function]map[*types.Var]bool // fields stored to in a function
 	visiting map[*ssa.Phi]bool
 	sanit    map[string]int
+	extra    map[ssa.Value]*origin // containers made here and filled from a tainted source (copy, element stores)
+	// resultsAlways: results that are tainted independently of the arguments (read from tainted state)
+	resultsAlways map[*ssa.Function]*origin
 }
 
 func newTaint(cfg TaintCfg) *Taint {
-	t := &Taint{cfg: cfg, fields: map[*types.Var]*origin{}, params: map[*ssa.Parameter]*origin{},
+	t := &Taint{cfg: cfg, resultsAlways: map[*ssa.Function]*origin{}, extra: map[ssa.Value]*origin{}, fields: map[*types.Var]*origin{}, params: map[*ssa.Parameter]*origin{},
 		free: map[*ssa.FreeVar]*origin{}, results: map[*ssa.Function]*origin{}, stores: map[*ssa.Function]map[*types.Var]bool{}}
 	for _, f := range cfg.P.SrcFuncs() {
 		if cfg.Scope[relPkg(f)] {
@@ -97,7 +100,7 @@ func (t *Taint) compute(v ssa.Value) *origin {
 		return t.of(x.X)
 	case *ssa.Field:
 		fv := fieldVar(x)
-		if fv != nil && isInteger(fv.Type()) {
+		if fv != nil && carries(fv.Type()) {
 			if t.cfg.IsSource(fv, x.Parent()) {
 				return &origin{Desc: "wire field " + typeShort(x.X.Type()) + "." + fv.Name(), Pos: x.Pos()}
 			}
@@ -108,9 +111,12 @@ func (t *Taint) compute(v ssa.Value) *origin {
 	case *ssa.UnOp:
 		if x.Op == token.MUL {
 			switch a := x.X.(type) {
+			case *ssa.IndexAddr:
+				// an element of a container
+				return t.of(a.X)
 			case *ssa.FieldAddr:
 				fv := fieldVar(a)
-				if fv != nil && isInteger(fv.Type()) {
+				if fv != nil && carries(fv.Type()) {
 					if t.cfg.IsSource(fv, x.Parent()) {
 						return &origin{Desc: "wire field " + typeShort(derefType(a.X.Type())) + "." + fv.Name(), Pos: x.Pos()}
 					}
@@ -134,6 +140,28 @@ func (t *Taint) compute(v ssa.Value) *origin {
 		if x.Op == token.SUB || x.Op == token.XOR {
 			return t.of(x.X)
 		}
+		if x.Op == token.ARROW {
+			// received from a channel: what was sent on the channel that lives in the same struct field
+			if fv := chanField(x.X); fv != nil {
+				if o := t.fields[fv]; o != nil {
+					return &origin{Desc: "received from channel " + fv.Name(), Pos: x.Pos(), Prev: o}
+				}
+			}
+		}
+	case *ssa.Slice:
+		if isContainer(x.Type()) {
+			if o := t.of(x.X); o != nil {
+				return o
+			}
+		}
+	case *ssa.MakeSlice:
+		if o := t.extra[x]; o != nil {
+			return o
+		}
+	case *ssa.Alloc:
+		if o := t.extra[x]; o != nil {
+			return o
+		}
 	case *ssa.BinOp:
 		switch x.Op {
 		case token.ADD, token.SUB, token.MUL, token.QUO, token.REM, token.SHL, token.SHR, token.AND, token.OR, token.XOR, token.AND_NOT:
@@ -150,8 +178,28 @@ func (t *Taint) compute(v ssa.Value) *origin {
 		}
 	case *ssa.Call:
 		if f := x.Call.StaticCallee(); f != nil {
+			if o := t.resultsAlways[f]; o != nil {
+				// tainted whatever the arguments: the result comes from state (a field, a reply channel)
+				return &origin{Desc: "result of " + fname(f), Pos: x.Pos(), Prev: o}
+			}
 			if o := t.results[f]; o != nil && anyArgTainted(t, x) {
 				return &origin{Desc: "result of " + fname(f), Pos: x.Pos(), Prev: o}
+			}
+		}
+		if bi, ok := x.Call.Value.(*ssa.Builtin); ok && bi.Name() == "append" && len(x.Call.Args) == 2 && isContainer(x.Type()) {
+			if o := t.of(x.Call.Args[0]); o != nil {
+				return o
+			}
+			if els := variadicElems(x.Call.Args[1]); len(els) > 0 {
+				for _, el := range els {
+					if o := t.of(el); o != nil {
+						if ok, _ := t.boundedAt(el, x.Block(), 0); !ok {
+							return &origin{Desc: "appended to a list", Pos: x.Pos(), Prev: o}
+						}
+					}
+				}
+			} else if o := t.of(x.Call.Args[1]); o != nil {
+				return o
 			}
 		}
 		if bi, ok := x.Call.Value.(*ssa.Builtin); ok && (bi.Name() == "min") {
@@ -169,8 +217,79 @@ func (t *Taint) compute(v ssa.Value) *origin {
 			return first
 		}
 	case *ssa.Extract:
-		if c, ok := x.Tuple.(*ssa.Call); ok && isInteger(x.Type()) {
+		if sel, ok := x.Tuple.(*ssa.Select); ok && x.Index >= 2 && carries(x.Type()) {
+			// the value received by the (Index-2)-th receive case of a select
+			k := 0
+			for _, st := range sel.States {
+				if st.Dir != types.RecvOnly {
+					continue
+				}
+				if k == x.Index-2 {
+					if fv := chanField(st.Chan); fv != nil {
+						if o := t.fields[fv]; o != nil {
+							return &origin{Desc: "received from channel " + fv.Name(), Pos: x.Pos(), Prev: o}
+						}
+					}
+				}
+				k++
+			}
+		}
+		if c, ok := x.Tuple.(*ssa.Call); ok && carries(x.Type()) {
 			return t.of(c)
+		}
+	}
+	return nil
+}
+
+// carries: values of this type can carry an attacker-chosen integer: integers, and slices / arrays / channels of
+// carriers (a peer's allowed-fast list, the copy of it handed over a reply channel).
+func carries(t types.Type) bool {
+	return carriesD(t, 0)
+}
+
+func carriesD(t types.Type, d int) bool {
+	if d > 3 {
+		return false
+	}
+	if isInteger(t) {
+		return true
+	}
+	switch u := t.Underlying().(type) {
+	case *types.Slice:
+		return carriesD(u.Elem(), d+1)
+	case *types.Array:
+		return carriesD(u.Elem(), d+1)
+	case *types.Chan:
+		return carriesD(u.Elem(), d+1)
+	}
+	return false
+}
+
+func isContainer(t types.Type) bool { return carries(t) && !isInteger(t) }
+
+// chanField: the struct field a channel value lives in: a load of the field, or a fresh channel that is stored into
+// the field of a struct literal (ch := make(chan []uint32); ev := PeerGetFast{ch}).
+func chanField(c ssa.Value) *types.Var {
+	c = strip(c)
+	if fv, _ := loadedFieldAny(c); fv != nil {
+		return fv
+	}
+	if mk, ok := c.(*ssa.MakeChan); ok {
+		for _, ref := range *mk.Referrers() {
+			switch x := ref.(type) {
+			case *ssa.Store:
+				if fa, ok := x.Addr.(*ssa.FieldAddr); ok && x.Val == ssa.Value(mk) {
+					return fieldVar(fa)
+				}
+			case *ssa.ChangeType:
+				for _, r2 := range *x.Referrers() {
+					if st, ok := r2.(*ssa.Store); ok {
+						if fa, ok := st.Addr.(*ssa.FieldAddr); ok && st.Val == ssa.Value(x) {
+							return fieldVar(fa)
+						}
+					}
+				}
+			}
 		}
 	}
 	return nil
@@ -585,17 +704,57 @@ func (t *Taint) scan(f *ssa.Function) {
 				return
 			}
 			fv := fieldVar(fa)
-			if fv == nil || !isInteger(fv.Type()) || t.fields[fv] != nil {
+			if fv == nil || !carries(fv.Type()) || t.fields[fv] != nil {
 				return
 			}
 			if o := t.of(x.Val); o != nil {
-				if ok, _ := t.boundedAt(x.Val, x.Block(), 0); !ok {
+				if ok, _ := t.boundedAt(x.Val, x.Block(), 0); !ok || isContainer(fv.Type()) {
 					t.fields[fv] = &origin{Desc: "stored unbounded into " + typeShort(derefType(fa.X.Type())) + "." + fv.Name() + " in " + fname(f), Pos: x.Pos(), Prev: o}
 					t.changed = true
 				}
 			}
+		case *ssa.Select:
+			for _, st := range x.States {
+				if st.Dir != types.SendOnly || st.Send == nil {
+					continue
+				}
+				if fv := chanField(st.Chan); fv != nil && t.fields[fv] == nil {
+					if o := t.of(st.Send); o != nil {
+						t.fields[fv] = &origin{Desc: "sent on channel " + fv.Name() + " in " + fname(f), Pos: x.Pos(), Prev: o}
+						t.changed = true
+					}
+				}
+			}
+			return
+		case *ssa.Send:
+			// a tainted value sent on a channel that lives in a struct field taints what is received from it
+			if fv := chanField(x.Chan); fv != nil && t.fields[fv] == nil {
+				if o := t.of(x.X); o != nil {
+					t.fields[fv] = &origin{Desc: "sent on channel " + fv.Name() + " in " + fname(f), Pos: x.Pos(), Prev: o}
+					t.changed = true
+				}
+			}
+			return
 		case ssa.CallInstruction:
 			c := x.Common()
+			if bi, ok := c.Value.(*ssa.Builtin); ok && bi.Name() == "copy" && len(c.Args) == 2 {
+				// copy(dst, src): a locally made dst now holds src's elements
+				dst := c.Args[0]
+				if sl, ok := dst.(*ssa.Slice); ok {
+					dst = sl.X
+				}
+				switch dst.(type) {
+				case *ssa.MakeSlice, *ssa.Alloc:
+					if t.extra[dst] == nil {
+						if o := t.of(c.Args[1]); o != nil {
+							t.extra[dst] = &origin{Desc: "copied into a local list in " + fname(f), Pos: in.Pos(), Prev: o}
+							t.changed = true
+							t.resetMemo()
+						}
+					}
+				}
+				return
+			}
 			var callee *ssa.Function
 			var bindings []ssa.Value
 			if sc := c.StaticCallee(); sc != nil {
@@ -612,11 +771,14 @@ func (t *Taint) scan(f *ssa.Function) {
 					break
 				}
 				p := callee.Params[i]
-				if t.params[p] != nil || !(isInteger(a.Type()) || isFloat(a.Type())) {
+				if t.params[p] != nil || !(carries(a.Type()) || isFloat(a.Type())) {
 					continue
 				}
 				if o := t.of(a); o != nil {
 					ok, why := t.boundedAt(a, in.Block(), 0)
+					if isContainer(a.Type()) {
+						ok = false
+					}
 					if os.Getenv("STORCHECK_DEBUG_TAINT") != "" {
 						fmt.Fprintf(os.Stderr, "taint-arg %s -> %s.%s bounded=%v (%s) at %s\n", exprStr(a), fname(callee), p.Name(), ok, why, t.cfg.P.pos(in.Pos()))
 					}
@@ -665,15 +827,42 @@ func (t *Taint) scan(f *ssa.Function) {
 				}
 			}
 		case *ssa.Return:
+			if t.resultsAlways[f] == nil {
+				// is a result tainted even when no parameter is? (evaluate with f's parameters taken as clean)
+				saved := map[*ssa.Parameter]*origin{}
+				for _, prm := range f.Params {
+					if o := t.params[prm]; o != nil {
+						saved[prm] = o
+						delete(t.params, prm)
+					}
+				}
+				memo, memoOK := t.memo, t.memoOK
+				t.resetMemo()
+				for _, res := range x.Results {
+					if !carries(res.Type()) {
+						continue
+					}
+					if o := t.of(res); o != nil {
+						if ok, _ := t.boundedAt(res, x.Block(), 0); !ok || isContainer(res.Type()) {
+							t.resultsAlways[f] = &origin{Desc: "returned by " + fname(f), Pos: x.Pos(), Prev: o}
+							t.changed = true
+						}
+					}
+				}
+				for prm, o := range saved {
+					t.params[prm] = o
+				}
+				t.memo, t.memoOK = memo, memoOK
+			}
 			if t.results[f] != nil {
 				return
 			}
 			for _, res := range x.Results {
-				if !isInteger(res.Type()) {
+				if !carries(res.Type()) {
 					continue
 				}
 				if o := t.of(res); o != nil {
-					if ok, _ := t.boundedAt(res, x.Block(), 0); !ok {
+					if ok, _ := t.boundedAt(res, x.Block(), 0); !ok || isContainer(res.Type()) {
 						t.results[f] = &origin{Desc: "returned by " + fname(f), Pos: x.Pos(), Prev: o}
 						t.changed = true
 					}
